@@ -4,3 +4,4 @@ import Nstd.Server.PropsC13Batch
 import Nstd.Server.PropsTr
 import Nstd.Server.PropsTr13
 import Nstd.Server.PropsC14R
+import Nstd.Server.PropsTrLoop
